@@ -374,6 +374,12 @@ func runC05(r *fw.Run) {
 			cases = append(cases, &c05Case{Desc: d, Style: st, Final: rng.Intn(numFinalStyles), LSeed: rng.Int63(), Source: "random"})
 		}
 	}
+	// large shapes: many members, wide structs, deep nesting, long names, long enums
+	for bi, d := range bigDescs() {
+		for st := 0; st < 5; st++ {
+			cases = append(cases, &c05Case{Desc: d, Style: st, Final: (bi + st) % numFinalStyles, LSeed: int64(bi*7 + st), Source: "big"})
+		}
+	}
 	// doc blocks on the core shapes: every final style x doc forms
 	docd := &Desc{Name: "com.example.docs", Doc: []string{"The interface", "", "second paragraph"}, Mems: []Mem{
 		{Kind: 't', Name: "T", T: enum("a", "b"), Doc: []string{"one line"}},
@@ -410,6 +416,56 @@ func runC05(r *fw.Run) {
 	}
 	r.Count("renderings", int64(len(cases)))
 }
+
+// bigDescs: descriptions whose size, width or depth is far beyond what the random generator draws.
+func bigDescs() []*Desc {
+	long := func(prefix string, n int) string {
+		s := prefix
+		for len(s) < n {
+			s += "aB3"
+		}
+		return s
+	}
+	var out []*Desc
+	// 90 members of all kinds
+	d := &Desc{Name: "org.example.many-members.x1"}
+	for i := 0; i < 30; i++ {
+		d.Mems = append(d.Mems, Mem{Kind: 't', Name: fmt.Sprintf("T%d", i), T: strct(Fld{"v", base(kInt)})},
+			Mem{Kind: 'm', Name: fmt.Sprintf("M%d", i), In: strct(Fld{"t", alias(fmt.Sprintf("T%d", (i+7)%30))}), Out: strct(Fld{"r", wrap(kArray, alias(fmt.Sprintf("T%d", i)))})},
+			Mem{Kind: 'e', Name: fmt.Sprintf("E%d", i), T: strct(Fld{"why", base(kString)})})
+	}
+	out = append(out, d)
+	// wide structs and long enums
+	w := strct()
+	var names []string
+	for i := 0; i < 48; i++ {
+		w.Fields = append(w.Fields, Fld{fmt.Sprintf("f%d_g%d", i, i), []*Ty{base(kInt), base(kString), wrap(kMaybe, base(kBool)), wrap(kArray, base(kFloat)), wrap(kMap, base(kObject))}[i%5]})
+		names = append(names, fmt.Sprintf("n%d", i))
+	}
+	out = append(out, &Desc{Name: "a.b", Mems: []Mem{{Kind: 't', Name: "Wide", T: w}, {Kind: 't', Name: "LongEnum", T: enum(names...)}, {Kind: 't', Name: "One", T: enum("single")},
+		{Kind: 'm', Name: "M", In: w, Out: strct(Fld{"e", enum(names...)}, Fld{"o", enum("single")})}, {Kind: 'e', Name: "E", T: w}}})
+	// deep nesting
+	deep := base(kString)
+	for i := 0; i < 30; i++ {
+		switch i % 4 {
+		case 0:
+			deep = wrap(kArray, deep)
+		case 1:
+			deep = wrap(kMap, deep)
+		case 2:
+			deep = strct(Fld{"inner", deep}, Fld{"n", base(kInt)})
+		case 3:
+			deep = wrap(kMaybe, deep)
+		}
+	}
+	out = append(out, &Desc{Name: "deep.nesting", Mems: []Mem{{Kind: 't', Name: "Deep", T: strct(Fld{"d", deep})}, {Kind: 'm', Name: "M", In: strct(Fld{"d", deep}), Out: strct(Fld{"d", wrap(kMaybe, alias("Deep"))})}}})
+	// long names
+	out = append(out, &Desc{Name: strings.Repeat("xY", 30) + "." + long("y", 60) + "." + long("z", 60), Mems: []Mem{{Kind: 't', Name: long("T", 130), T: strct(Fld{long("f", 130), alias(long("T", 130))}.maybe())},
+		{Kind: 'm', Name: long("M", 200), In: strct(Fld{long("a", 90), base(kInt)}), Out: strct(Fld{long("b_", 90), wrap(kArray, alias(long("T", 130)))})}, {Kind: 'e', Name: long("E", 64), T: strct()}}})
+	return out
+}
+
+func (f Fld) maybe() Fld { return Fld{f.Name, wrap(kMaybe, f.T)} }
 
 func replayC05(r *fw.Run, raw json.RawMessage) {
 	var c c05Case
